@@ -7,6 +7,7 @@ import (
 	"go/token"
 	"go/types"
 	"sort"
+	"strconv"
 	"strings"
 
 	"golang.org/x/tools/go/packages"
@@ -1133,6 +1134,37 @@ func (in *Interp) rangeLoop(s *ast.RangeStmt, ev *env, cur *relang.DFA) (T, F, N
 			}
 		}
 	}
+	// flat-map: every part is replaced by its own parts on a second separator —
+	//   for _, x := range strings.Split(v, s1) { dst = append(dst, strings.Split(x, s2)...) }   ≡ multiSplit(v, s1, s2)
+	if len(body) == 1 {
+		if dst, arg, spread, isApp := appendOf(body[0]); isApp && spread && lv.kind == "split" && lv.src != nil {
+			if l, ok := ev.vars[dst].(*listT); ok && l.kind == "emptylist" {
+				if sp, ok := ast.Unparen(arg).(*ast.CallExpr); ok && in.callName(sp) == "strings.Split" && len(sp.Args) == 2 && isIdent(sp.Args[0], x) {
+					if k, ok := in.cstr(sp.Args[1], ev); ok && k != "" && !strings.Contains(k, lv.sep) {
+						ev.vars[dst] = &listT{kind: "multisplit", sep: lv.sep + "\x00" + k, src: lv.src, desc: fmt.Sprintf("multiSplit(%s,[%q %q])", lv.src.desc, lv.sep, k)}
+						ev.note("flat-map loop read as multiSplit")
+						return in.E.Empty(), in.E.Empty(), cur
+					}
+				}
+			}
+		}
+	}
+	// the two halves of a part with exactly one separator, cut by index instead of Split:
+	//   if strings.Count(x, sep) == 1 { i := strings.IndexByte(x, sep) ; dst = append(dst, x[:i], x[i+1:]) } else { dst = append(dst, x) }
+	if len(body) == 1 {
+		if ifs, ok := body[0].(*ast.IfStmt); ok && ifs.Init == nil && len(ifs.Body.List) == 2 {
+			if sep, dst, ok := in.cutByIndex(ifs, x, ev); ok {
+				if eb, ok := ifs.Else.(*ast.BlockStmt); ok && len(eb.List) == 1 {
+					d2, a2, sp2, ok2 := appendOf(eb.List[0])
+					if l, isL := ev.vars[dst].(*listT); ok2 && d2 == dst && !sp2 && isIdent(a2, x) && isL && l.kind == "emptylist" && len([]rune(sep)) == 1 && lv.kind == "split" && lv.sep == " " {
+						ev.vars[dst] = &listT{kind: "flatten", base: lv, sep: sep, desc: fmt.Sprintf("flatten(%s,%q)", lv.desc, sep)}
+						ev.note("halves cut by index read as flatten")
+						return in.E.Empty(), in.E.Empty(), cur
+					}
+				}
+			}
+		}
+	}
 	if len(body) == 1 {
 		if ifs, ok := body[0].(*ast.IfStmt); ok && len(ifs.Body.List) == 1 {
 			dst, arg, spread, isApp := appendOf(ifs.Body.List[0])
@@ -1511,4 +1543,80 @@ func (in *Interp) cstr(e ast.Expr, ev *env) (string, bool) {
 		}
 	}
 	return "", false
+}
+
+// cutByIndex recognises, for the range element x,
+//
+//	if strings.Count(x, sep) == 1 { i := strings.IndexByte(x, 'c') | strings.Index(x, "c"); dst = append(dst, x[:i], x[i+1:]) }
+//
+// and returns the separator and the destination list.
+func (in *Interp) cutByIndex(ifs *ast.IfStmt, x string, ev *env) (sep, dst string, ok bool) {
+	be, isB := ast.Unparen(ifs.Cond).(*ast.BinaryExpr)
+	if !isB || be.Op != token.EQL {
+		return
+	}
+	lc, isCall := ast.Unparen(be.X).(*ast.CallExpr)
+	n, isN := in.value(be.Y, ev).(int)
+	if !isCall || !isN || n != 1 || in.callName(lc) != "strings.Count" || len(lc.Args) != 2 || !isIdent(lc.Args[0], x) {
+		return
+	}
+	condSep, okSep := in.cstr(lc.Args[1], ev)
+	if !okSep || len(condSep) != 1 {
+		return
+	}
+	as, isA := ifs.Body.List[0].(*ast.AssignStmt)
+	if !isA || as.Tok != token.DEFINE || len(as.Lhs) != 1 || len(as.Rhs) != 1 {
+		return
+	}
+	idx, isId := as.Lhs[0].(*ast.Ident)
+	ic, isC := ast.Unparen(as.Rhs[0]).(*ast.CallExpr)
+	if !isId || !isC || len(ic.Args) != 2 || !isIdent(ic.Args[0], x) {
+		return
+	}
+	switch in.callName(ic) {
+	case "strings.Index":
+		if k, okK := in.cstr(ic.Args[1], ev); !okK || k != condSep {
+			return
+		}
+	case "strings.IndexByte", "strings.IndexRune":
+		bl, isL := ast.Unparen(ic.Args[1]).(*ast.BasicLit)
+		if !isL || bl.Kind != token.CHAR {
+			return
+		}
+		r, _, _, err := strconv.UnquoteChar(strings.Trim(bl.Value, "'"), '\'')
+		if err != nil || string(r) != condSep {
+			return
+		}
+	default:
+		return
+	}
+	// dst = append(dst, x[:i], x[i+1:])
+	as2, isA2 := ifs.Body.List[1].(*ast.AssignStmt)
+	if !isA2 || len(as2.Lhs) != 1 || len(as2.Rhs) != 1 {
+		return
+	}
+	d, isD := as2.Lhs[0].(*ast.Ident)
+	call, isCall2 := as2.Rhs[0].(*ast.CallExpr)
+	if !isD || !isCall2 || len(call.Args) != 3 || call.Ellipsis.IsValid() {
+		return
+	}
+	if f, isF := call.Fun.(*ast.Ident); !isF || f.Name != "append" || !isIdent(call.Args[0], d.Name) {
+		return
+	}
+	lo, isLo := ast.Unparen(call.Args[1]).(*ast.SliceExpr)
+	hi, isHi := ast.Unparen(call.Args[2]).(*ast.SliceExpr)
+	if !isLo || !isHi || !isIdent(lo.X, x) || !isIdent(hi.X, x) || lo.Slice3 || hi.Slice3 {
+		return
+	}
+	if lo.Low != nil || lo.High == nil || !isIdent(lo.High, idx.Name) || hi.High != nil || hi.Low == nil {
+		return
+	}
+	plus, isP := ast.Unparen(hi.Low).(*ast.BinaryExpr)
+	if !isP || plus.Op != token.ADD || !isIdent(plus.X, idx.Name) {
+		return
+	}
+	if one, isOne := ast.Unparen(plus.Y).(*ast.BasicLit); !isOne || one.Value != "1" {
+		return
+	}
+	return condSep, d.Name, true
 }
